@@ -270,7 +270,7 @@ pub fn sizes_enum_spec(rs: u64, unit: u64) -> RunSpec {
 /// Accesses from inside borrow-mode query closures, enumerated: 8 sites x {ecs_iter_borrow!,
 /// ecs_find_borrow!} x 6 inner access kinds x inner mutability x {aimed at the visited column,
 /// elsewhere} = 384 cells, at a sampled world state.
-pub const C11Q_CELLS: u64 = 12 * 2 * 6 * 2 * 2;
+pub const C11Q_CELLS: u64 = 12 * 2 * 8 * 2 * 2;
 pub fn c11q_enum_spec(rs: u64, unit: u64) -> RunSpec {
     let mut c = unit % C11Q_CELLS;
     let mut take = |n: u64| {
@@ -280,7 +280,7 @@ pub fn c11q_enum_spec(rs: u64, unit: u64) -> RunSpec {
     };
     let site = take(12) as u8;
     let find = take(2) == 1;
-    let kind = C11_KINDS[take(6) as usize];
+    let kind = C11_INNER[take(8) as usize];
     let m = take(2) == 1;
     let aimed = take(2) == 0;
     let mut rng = crate::gen::Rng::new(rs);
@@ -426,10 +426,12 @@ pub fn c12_enum_spec(rs: u64, unit: u64) -> RunSpec {
 }
 
 pub const C11_KINDS: [AccKind; 6] = [AccKind::FindBorrow, AccKind::IterBorrow, AccKind::BorrowComp, AccKind::BorrowSlice, AccKind::CloneWorld, AccKind::CloneArch];
+/// inner accesses: the six above plus `clone_from` with the borrowed world as the SOURCE (world and archetype level)
+pub const C11_INNER: [AccKind; 8] = [AccKind::FindBorrow, AccKind::IterBorrow, AccKind::BorrowComp, AccKind::BorrowSlice, AccKind::CloneWorld, AccKind::CloneArch, AccKind::CloneFromWorld, AccKind::CloneFromArch];
 
 /// The access matrix enumerated: outer kind x inner kind x outer mutability x inner mutability x
 /// {same column, other column, other archetype} x {same entity, other entity, empty archetype}.
-pub const C11_CELLS: u64 = 6 * 6 * 2 * 2 * 3 * 3;
+pub const C11_CELLS: u64 = 6 * 8 * 2 * 2 * 3 * 3;
 pub fn c11_enum_spec(rs: u64, unit: u64) -> RunSpec {
     let mut c = unit % C11_CELLS;
     let mut take = |n: u64| {
@@ -438,7 +440,7 @@ pub fn c11_enum_spec(rs: u64, unit: u64) -> RunSpec {
         r
     };
     let ok = C11_KINDS[take(6) as usize];
-    let ik = C11_KINDS[take(6) as usize];
+    let ik = C11_INNER[take(8) as usize];
     let om = take(2) == 1;
     let im = take(2) == 1;
     let place = take(3);
